@@ -419,6 +419,27 @@ def r5_fresh_and_static(ctx, rule="C03.R5"):
                "stash_function_return_value %s the function's result variable and leaves it set: a STATIC "
                "function keeps its memory block, so a later call that does not assign its name returns the "
                "value of the earlier call instead of zero / the empty string" % ("clones" if cloned else "reads"))
+    # what is left behind is the default value of the function's own type - the very value a fresh
+    # variable of that name starts with (sibling agreement with Variables::get_or_create): an untyped
+    # zero would make a STATIC string function return the integer 0 on a call that assigns nothing
+    goc = prog.method("Variables", "get_or_create")
+    if goc is None:
+        raise CheckError("anchor Variables::get_or_create")
+    creators = {mir.callee_path(t) for g in [goc] + prog.closures_of(goc) for _b, t in g.body.calls()
+                if "rusty_basic" in (mir.callee_of(t) or "") and not mir.callee_path(t).endswith("get_or_create")}
+    repl_ok = None
+    for g in [h] + [prog.fns[c] for c in prog.call_edges(h) if c in prog.fns and prog.fns[c].crate == "rusty_basic"]:
+        gpv = mir.Prov(g.body)
+        for b, t in g.body.calls():
+            if mir.callee_path(t).split("::")[-1] == "replace" and "mem" in mir.callee_path(t) and len(t["args"]) > 1:
+                o = gpv.of_operand(t["args"][1])
+                repl_ok = mir.origin_mentions(o, lambda x: x[0] == "call" and x[1] in creators)
+    if repl_ok is not None:
+        ctx.decide(repl_ok, rule, rule + ":function-result-reset-to-typed-default", h.loc,
+                   "the variable is reset with the default value a fresh variable of that name gets",
+                   "the function's result variable is reset to a value that does not come from %s (the default "
+                   "Variables::get_or_create uses for a fresh variable of that name): a STATIC function of type $ / & / ! / # "
+                   "that assigns nothing on a later call returns an untyped 0" % sorted(c.split("::")[-1] for c in creators))
     ctx.require(rule, 4)
 
 
